@@ -252,6 +252,8 @@ def main(argv):
                 merged["coverage_extra"].setdefault("exceptions", []).extend(v[:2])
             elif isinstance(v, (int, float)):
                 merged["coverage_extra"][k] = merged["coverage_extra"].get(k, 0) + v
+            elif isinstance(v, list) and v and isinstance(v[0], dict):
+                merged["coverage_extra"].setdefault(k, []).extend(v)
             elif isinstance(v, list):
                 merged["coverage_extra"].setdefault(k, [])
                 merged["coverage_extra"][k] = sorted(set(merged["coverage_extra"][k]) | set(v))[:400]
